@@ -306,6 +306,17 @@ def classify(suite, desc):
     return None
 
 
+def shrink(suite, desc):
+    from lib import shrink as sh
+    if suite != "blocks":
+        return None
+    kind, start, values = desc["block"]
+    values = [tuple(v) for v in values] if kind == "sp" else values
+    c = sh.shrink_ops("C18", IMPORTS, "chk_block code", [tuple(o) for o in desc["ops"]],
+                      lambda ops: block_case(kind, start, values, ops, "shrunk"))
+    return c.desc if c else None
+
+
 def replay_finding(f):
     """True when the witness still fails on the implementation."""
     w = f["witness"]
